@@ -272,6 +272,7 @@ def run(ctx):
     swapped_arguments(ctx, "R12-d")
     modified_lines_one_write_per_line(ctx, "R12-e")
     diff_sees_whole_texts(ctx, "R12-f")
+    reader_reads_the_text_as_written(ctx, "R12-g")
 
 
 def name_root(fn, op, depth=0):
@@ -464,3 +465,36 @@ def diff_sees_whole_texts(ctx, rid):
                         "diff::lines receives %s instead of make_diff's own (expected, actual): line numbers and the end-of-file "
                         "newline item no longer describe the two files" % [short(k)[:60] for k in keys], [c.loc()])
     r.floor(rid, n, 1, "diff::lines calls in make_diff")
+
+
+def reader_reads_the_text_as_written(ctx, rid):
+    """R12-g: the reader of the modified-lines format splits exactly the text the writer produced"""
+    from common import expr_key
+    p, r = ctx.p, ctx.r
+    r.rule(rid, "<ModifiedLines as FromStr>::from_str iterates `str::lines` of its own parameter — not a trimmed, stripped or "
+                "otherwise transformed copy: the writer emits every added line followed by a newline, added lines may be empty or "
+                "blank, and the header announces how many follow; a reader that drops blank text at either end no longer finds the "
+                "announced number of lines (`2 0 1\\n\\n` for a missing final newline)")
+    f = None
+    for g in p.by_crate["rustfmt_nightly"]:
+        if "ModifiedLines" in g.id and g.id.endswith("::from_str") and "FromStr" in g.id:
+            f = g
+    if f is None:
+        r.undecidable(rid, "<ModifiedLines as FromStr>::from_str not found")
+        return
+    n = 0
+    for c in f.calls():
+        if "str" not in c.name or c.name.rsplit("::", 1)[-1] not in ("lines", "split", "split_terminator", "split_inclusive"):
+            continue
+        key = expr_key(f, c.args[0])
+        d = f.derived_from(c.args[0][1][0]) if c.args[0][0] != "k" else {"args": set(), "calls": []}
+        if 1 not in d["args"] or any(x.name.rsplit("::", 1)[-1] in ("lines", "next") for x in d["calls"]):
+            continue            # splitting something else (one line of the text, a header)
+        n += 1
+        ok = key == "arg1"
+        r.instance(rid, "from_str splits %s into lines" % short(key)[:40], "ok" if ok else "violation", c.loc())
+        if not ok:
+            r.violation(rid, "ModifiedLines::from_str does not read the text as written",
+                        "the lines are taken from %s, not from the parameter itself: blank added lines at the ends of the report are "
+                        "lost and the chunk headers no longer match" % short(key)[:80], [c.loc()])
+    r.floor(rid, n, 1, "line splits of the parameter in ModifiedLines::from_str")
